@@ -25,10 +25,13 @@ pub struct PathPt {
     pub tol: f64,
     /// minimum step in units of the maximum step
     pub dtmin_rel: f64,
+    /// when present the ending time is this absolute value (instead of t0 + r x dtmax)
+    #[serde(default)]
+    pub end_abs: Option<f64>,
 }
 impl PathPt {
     pub fn cfg(&self) -> Cfg {
-        Cfg { tol: self.tol, dtmin: self.dtmin_rel * self.dtmax, dtmax: self.dtmax, t0: self.t0, t1: self.t0 + self.r * self.dtmax }
+        Cfg { tol: self.tol, dtmin: self.dtmin_rel * self.dtmax, dtmax: self.dtmax, t0: self.t0, t1: self.end_abs.unwrap_or(self.t0 + self.r * self.dtmax) }
     }
 }
 pub struct Lattice;
@@ -81,7 +84,7 @@ impl Check for Lattice {
                     for &t0 in &t.pick(vec![0.0, -1.3], vec![0.0, -1.3, 2.5]) {
                         if solver == Solver::Euler {
                             for &dt in &[0.5, 0.1, 0.03, 1.0 / 3.0] {
-                                v.push(PathPt { solver, problem: p.to_string(), t0, dtmax: dt, r, tol: 1e-3, dtmin_rel: 1.0 });
+                                v.push(PathPt { solver, problem: p.to_string(), t0, dtmax: dt, r, tol: 1e-3, dtmin_rel: 1.0, end_abs: None });
                             }
                             continue;
                         }
@@ -91,8 +94,27 @@ impl Check for Lattice {
                                     if r >= 1000.0 && (tol < 1e-6 || dtmin_rel > 1e-6 && dtmax < 0.1) {
                                         continue;
                                     }
-                                    v.push(PathPt { solver, problem: p.to_string(), t0, dtmax, r, tol, dtmin_rel });
+                                    v.push(PathPt { solver, problem: p.to_string(), t0, dtmax, r, tol, dtmin_rel, end_abs: None });
                                 }
+                            }
+                        }
+                    }
+                }
+            }
+        }
+        // intervals that start at a negative time and end at a small positive one: the clipped final step crosses
+        // zero, where time + (end - time) is not exact (the last point can land an ulp off the end time)
+        for &solver in &ALL_SOLVERS {
+            for &t0 in &[-1.3, -0.7] {
+                for j in 1..=t.pick(40, 120) {
+                    let end = 0.0173 * j as f64 + 0.00071 * (j * j) as f64;
+                    for &dtmax in &[0.5, 0.1] {
+                        for &tol in &[1e-2, 1e-5] {
+                            for prob in ["rest", "lin-2"] {
+                                if solver == Solver::Euler && tol != 1e-2 {
+                                    continue;
+                                }
+                                v.push(PathPt { solver, problem: prob.to_string(), t0, dtmax, r: (end - t0) / dtmax, tol, dtmin_rel: if solver == Solver::Euler { 1.0 } else { 1e-7 }, end_abs: Some(end) });
                             }
                         }
                     }
